@@ -44,6 +44,7 @@ type verifASAConf struct {
 	acls     map[string][]verifASALine
 	groups   []*verifASAGroup
 	bound    string // ACL bound "in interface inside" or ""
+	bound2   string // ACL bound "in interface outside" or "" (param acl2)
 	manual   bool   // unmanaged object-group "manual-grp" present
 
 	// model only
@@ -99,6 +100,9 @@ func verifBuildASAConfig(s *State, mn *verifASAMenu, d *verifASAConf, isDevice b
 	var b strings.Builder
 	if isDevice {
 		b.WriteString("interface Ethernet0/0\n nameif inside\n")
+		if verifACL2 {
+			b.WriteString("interface Ethernet0/1\n nameif outside\n")
+		}
 	}
 	for ai, name := range d.aclOrder {
 		for i, l := range d.acls[name] {
@@ -111,6 +115,9 @@ func verifBuildASAConfig(s *State, mn *verifASAMenu, d *verifASAConf, isDevice b
 	}
 	if d.bound != "" {
 		b.WriteString("access-group " + d.bound + " in interface inside\n")
+	}
+	if d.bound2 != "" {
+		b.WriteString("access-group " + d.bound2 + " in interface outside\n")
 	}
 	for gi, g := range d.groups {
 		b.WriteString("object-group network " + g.name + "\n")
@@ -281,7 +288,7 @@ func (m *verifASAConf) exec(c string) {
 		name := vf.FixString(rest)
 		_, found := m.acls[name]
 		m.reject(!found, "clear of unknown access-list")
-		m.reject(m.bound == name, "clear of access-list that is still bound to an interface")
+		m.reject(m.bound == name || m.bound2 == name, "clear of access-list that is still bound to an interface")
 		m.delACL(name)
 		return
 	}
@@ -309,12 +316,21 @@ func (m *verifASAConf) exec(c string) {
 		w := strings.Fields(vf.FixString(rest))
 		_, found := m.acls[w[0]]
 		m.reject(!found, "access-group for unknown access-list")
-		m.bound = w[0]
+		if len(w) == 4 && w[3] == "outside" {
+			m.bound2 = w[0]
+		} else {
+			m.bound = w[0]
+		}
 		return
 	}
 	if rest, ok := strings.CutPrefix(c, "no access-group "); ok {
 		m.mode = ""
 		w := strings.Fields(vf.FixString(rest))
+		if len(w) == 4 && w[3] == "outside" {
+			m.reject(m.bound2 != w[0], "remove access-group that is not configured")
+			m.bound2 = ""
+			return
+		}
 		m.reject(m.bound != w[0], "remove access-group that is not configured")
 		m.bound = ""
 		return
@@ -388,6 +404,18 @@ func (m *verifASAConf) verdict(mn *verifASAMenu, p int) int {
 	}
 	return m.aclVerdict(mn, m.acls[m.bound], p)
 }
+
+// verdict of the ACL bound to the second interface
+func (m *verifASAConf) verdict2(mn *verifASAMenu, p int) int {
+	if m.bound2 == "" {
+		return 2
+	}
+	return m.aclVerdict(mn, m.acls[m.bound2], p)
+}
+
+// verifACL2: a second interface "outside" with its own ACL of one line that
+// references an object-group
+var verifACL2 = false
 
 func verifHostOfClass(cl int) int { return cl % 4 } // 0..2: 10.0.0.1-3, 3: other
 
@@ -502,6 +530,22 @@ func verifASAPickSide(tag, aclName string, n int, mn *verifASAMenu, grpNames []s
 		d.acls[aclName] = lines
 		d.bound = aclName
 	}
+	if verifACL2 && len(grpNames) > 0 && vf.Bool(tag+".acl2") {
+		gi := 0
+		if len(grpNames) > 1 {
+			gi = vf.FixInt(vf.Int(tag+".acl2.group", 0, len(grpNames)-1))
+		}
+		gname := grpNames[gi]
+		used[gname] = true
+		name2 := "outside_in"
+		if tag == "a" {
+			name2 = "outside_in-DRC-0"
+		}
+		d.aclOrder = append(d.aclOrder, name2)
+		d.acls[name2] = []verifASALine{{body: "permit ip object-group " + gname + " any4", grp: gname}}
+		d.bound2 = name2
+		vf.Cover("second interface ACL on " + map[string]string{"a": "device", "b": "target"}[tag])
+	}
 	for _, gname := range grpNames {
 		if used[gname] {
 			d.groups = append(d.groups, verifASAPickGroup(tag+"."+gname, gname, maxMembers))
@@ -511,7 +555,7 @@ func verifASAPickSide(tag, aclName string, n int, mn *verifASAMenu, grpNames []s
 }
 
 func (d *verifASAConf) clone() *verifASAConf {
-	c := &verifASAConf{acls: map[string][]verifASALine{}, bound: d.bound, manual: d.manual}
+	c := &verifASAConf{acls: map[string][]verifASALine{}, bound: d.bound, bound2: d.bound2, manual: d.manual}
 	c.aclOrder = append([]string{}, d.aclOrder...)
 	for k, v := range d.acls {
 		c.acls[k] = append([]verifASALine{}, v...)
@@ -529,6 +573,10 @@ func VerifASAACL(cmdInfo string) {
 	G, _ := strconv.Atoi(vf.Param("G", "1"))        // object-groups per side
 	MM, _ := strconv.Atoi(vf.Param("members", "2")) // members per group
 	cut := vf.Param("cut", "0") == "1"
+	verifACL2 = vf.Param("acl2", "0") == "1"
+	if verifACL2 {
+		vf.Assumption("ASA: optional second interface 'outside' with an ACL of one line 'permit ip object-group G any4' on each side")
+	}
 	vf.Assumption("ASA: ACL lines are plain lines from a menu of " + strconv.Itoa(K) + " or 'permit|deny ip object-group G any4'; no ACL holds the same entry twice modulo log; object-groups have 1.." + strconv.Itoa(MM) + " distinct members of 3 hosts")
 	vf.Assumption("ASA model: 'line N' addresses position N (1..len+1), duplicate entry (modulo log) rejected, referenced object-group must exist, object-group delete rejected while referenced, member add/remove rejected if present/absent, access-group needs an existing ACL, clear configure access-list rejected while bound, implicit deny at the end")
 	s := &State{Model: "ASA"}
@@ -656,6 +704,23 @@ func VerifASAACL(cmdInfo string) {
 	}
 	vEnd := model.verdict(mn, p)
 	vf.Assert(vf.EqInt(vEnd, vB), lbl+": ASA: after executing the script the ACL filters differently from the target")
+	if verifACL2 {
+		if dB.bound2 == "" {
+			// the target does not know interface outside: its ACL is out of scope
+			vf.Assert(model.bound2 == dA.bound2, "C07: ASA: access-group of an interface unknown to Netspoc was changed")
+			if dA.bound2 != "" {
+				same := len(model.acls[dA.bound2]) == len(dA.acls[dA.bound2])
+				if same {
+					for i, l := range dA.acls[dA.bound2] {
+						same = same && model.acls[dA.bound2][i].body == l.body
+					}
+				}
+				vf.Assert(same, "C07: ASA: ACL of an interface unknown to Netspoc was changed")
+			}
+		} else {
+			vf.Assert(vf.EqInt(model.verdict2(mn, p), dB.verdict2(mn, p)), lbl+": ASA: after executing the script the ACL of the second interface filters differently from the target")
+		}
+	}
 	vf.Assert(model.manual == dA.manual, "C07: ASA: unmanaged object-group removed")
 	// no left-over generated objects that the target does not use: second compare
 	s3 := &State{Model: "ASA"}
